@@ -213,6 +213,7 @@ class World:
     async def factory(self):
         n = len(self.attempts)
         outcome, latency, lifetime, lossmode = (self.step_for(n) + (None, None))[:4]
+        outcome, _, teardown = outcome.partition("~")  # "ok~1.5": when cancelled, the attempt needs 1.5 s to unwind (releasing a half-open resource)
         rec = {"start": self.loop.time(), "end": None, "outcome": None, "transport": None, "n": n}
         self.attempts.append(rec)
         self.event("attempt_start", n)
@@ -222,6 +223,9 @@ class World:
         except asyncio.CancelledError:
             rec["end"], rec["outcome"] = self.loop.time(), "cancelled"
             self.event("attempt_cancelled", n)
+            if teardown:
+                await asyncio.sleep(float(teardown))
+                self.event("attempt_unwound", n)
             raise
         rec["end"] = self.loop.time()
         if outcome.startswith("fail"):
